@@ -204,6 +204,12 @@ D = {
  'C13-wakefd-restores-flags-r6': ('C13', 'WakeFd restores the original file status flags on drop (round 6, independent rediscovery)', 'two registrations on dups of one pipe, one removed, a full pipe: the other blocks in write(2)'),
  'C17-zero-pid-means-none-r6': ('C17', 'Origin::extract treats pid 0 and uid 0 as "nothing filled in" on every platform (round 6, independent rediscovery)', 'a root sender outside the receiver\'s PID namespace'),
  'C17-nonpositive-code-is-user-r6': ('C17', 'extract.c classes unnamed non-positive si_code values as user-sent (round 6, independent rediscovery)', 'a POSIX timer: timer id and overrun reported as pid and uid'),
+ 'C16-restore-default-skips-ignored-r6': ('C16', 'restore_default returns early when the disposition is SIG_DFL or SIG_IGN (round 6, independent rediscovery)', 'a terminating signal that is ignored at the call (SIGPIPE in every Rust program, nohup): SIGABRT instead of the signal'),
+ 'C16-forbidden-shortcut-only-raises': ('C16', 'the SIGKILL/SIGSTOP shortcut of emulate_default_handler becomes FORBIDDEN.contains(signal)', 'ILL / FPE / SEGV with a handler installed, ignored or blocked: only raised, the process continues or loops'),
+ 'C02-ids-per-slot': ('C02', 'ActionIds allocated per slot (largest id in the slot + 1) instead of from the global counter', 'a stale SigId after another registration on the same signal: unregister removes the newer action'),
+ 'C02-unregister-clones-outside-mutex-r6': ('C02', 'unregister clones the table through a read guard and locks only for the store (round 6, independent rediscovery)', 'two threads mutating the registry, one removing: a registration vanishes / a removed action is back'),
+ 'C18-iterator-wakes-with-write-r6': ('C18', 'the iterator wakes with WakeMethod::Write on its blocking socket pair (round 6, independent rediscovery)', 'about 278 unread wake-ups, a delivery on another thread and a mutator called by the owner before it reads again: the delivery blocks, the mutator spins'),
+ 'C18-poisoned-lock-relocked-in-match': ('C18', 'ids.lock() is matched and the Err arm locks again while the poisoned guard is still alive', 'a caught panicking add_signal (poisons the ids mutex), then any add_signal or the drop of the instance: never returns'),
 }
 for name, (prop, change, needs) in D.items():
     d = os.path.join(ROOT, 'seeded', name)
